@@ -127,8 +127,21 @@ func (p *Prometheus) WroteResponse(res *http.Response) {
 	p.requestDuration.WithLabelValues(labelsWithStatus...).Observe(elapsed)
 }
 
+// methodLabel is the value of the method label: the method of the request when it is one of the
+// registered ones, "OTHER" otherwise. A method is any token the client likes, and a label value
+// that was never used before makes new series that are kept for the life of the process.
+func methodLabel(method string) string {
+	switch method {
+	case http.MethodGet, http.MethodHead, http.MethodPost, http.MethodPut, http.MethodPatch, http.MethodDelete,
+		http.MethodConnect, http.MethodOptions, http.MethodTrace:
+		return method
+	default:
+		return "OTHER"
+	}
+}
+
 func (p *Prometheus) labels(req *http.Request) []string {
-	labels := []string{req.Method}
+	labels := []string{methodLabel(req.Method)}
 	if p.label != "" {
 		labels = append(labels, p.labeler(req))
 	}
